@@ -173,11 +173,10 @@ class Engine:
         self.local_imports = {}
 
     def _number(self, fn):
-        k = 0
-        for n in ast.walk(fn):
-            if isinstance(n, (ast.For, ast.While, ast.AsyncFor)):
-                self.loop_ord[id(n)] = k
-                k += 1
+        # loops are numbered in SOURCE order (line, column), the ordinal used by the sidecar contracts
+        loops = [n for n in ast.walk(fn) if isinstance(n, (ast.For, ast.While, ast.AsyncFor))]
+        for k, n in enumerate(sorted(loops, key=lambda n: (n.lineno, n.col_offset))):
+            self.loop_ord[id(n)] = k
 
     # ================================================================== exploration
     def explore(self):
@@ -698,6 +697,8 @@ class Engine:
         return r
 
     def list_repeat(self, val, n):
+        if val.ty == "none":
+            val = V("any", z3.IntVal(0))  # [None] * n: a list of untyped slots
         r = self.alloc_list(val.ty)
         s = sort_of(val.ty)
         self.st.heap.store(self.el_name(val.ty), z3.ArraySort(I, s), r.z, z3.K(I, val.z))
@@ -1408,7 +1409,13 @@ class Engine:
         if spec is None:
             return self.bi.unroll_for(self, n)
         st = self.st
-        it = self.bi.iterator(self, n.iter)  # (lo, hi, elem(i)->V)
+        self.loop_prefilter = False
+        it_node = n.iter
+        if isinstance(it_node, ast.Call) and self.bi.dotted(it_node.func) == "filter" and len(it_node.args) == 2 and isinstance(it_node.args[0], ast.Constant) and it_node.args[0].value is None:
+            # for x in filter(None, xs): iterate xs and skip falsy elements
+            it_node = it_node.args[1]
+            self.loop_prefilter = True
+        it = self.bi.iterator(self, it_node)  # (lo, hi, elem(i)->V)
         lo, hi, elem = it
         st.vars[f"_lo{k}"], st.vars[f"_hi{k}"] = vint(lo), vint(hi)
         st.labels[f"L{k}"] = Snapshot(st)
@@ -1483,17 +1490,25 @@ class Engine:
             return
         st.frames.append((k, nentry, mods))
         st.idx.append(i)
+        prefilter = is_for and getattr(self, "loop_prefilter", False)
+        self.loop_prefilter = False
         if is_for:
             self.assign(n.target, elem(i))
         try:
             try:
-                self.block(n.body)
+                if not prefilter or self.branch(self.truthy(self.ev(n.target))):
+                    self.block(n.body)
             except ContinueEx:
                 pass
         except BreakEx:
             st.frames.pop()
             st.idx.pop()
             return
+        except (RaiseEx, ReturnEx):
+            # control leaves the loop: later writes are no longer subject to this loop's frame
+            st.frames.pop()
+            st.idx.pop()
+            raise
         for j, z in enumerate(self.loop_inv(k, spec, i + 1)):
             self.oblige("inv-preserved", z, f"L{k}/{j}")
         raise PathEnd("back edge")
